@@ -23,7 +23,8 @@ use rand::rngs::StdRng;
 use rand::Rng;
 use serde_json::{json, Value};
 use smartcore::linalg::naive::dense_matrix::DenseMatrix;
-use smartcore::linalg::BaseMatrix;
+use smartcore::api::{Predictor, SupervisedEstimator};
+use smartcore::linalg::{BaseMatrix, BaseVector, Matrix};
 use smartcore::linear::logistic_regression::{
     LogisticRegression, LogisticRegressionParameters, LogisticRegressionSolverName,
 };
@@ -440,16 +441,40 @@ struct LogitCase {
     n: usize,
     p: usize,
     k: usize,
-    /// label values times two (ascending), class index per row, features times 2^XS
-    labels2: Vec<i64>,
+    /// the k distinct label values, ascending (any finite floats)
+    labels: Vec<f64>,
     yc: Vec<usize>,
+    /// features times 2^xs
     xi: Vec<Vec<i64>>,
-    /// query rows (the training rows followed by fresh rows)
+    /// query rows
     qi: Vec<Vec<i64>>,
     alpha_num: i64,
-    layout: &'static str,
+    layout: String,
     xs: i32,
     style: usize,
+    /// 0 DenseMatrix, 1 ndarray, 2 nalgebra
+    backend: usize,
+    /// call fit / predict through the api traits instead of the inherent methods
+    via_trait: bool,
+}
+
+const BACKENDS: [&str; 3] = ["dense", "ndarray", "nalgebra"];
+/// code of a prediction that is not (bit for bit) one of the training labels
+const NOLABEL: i64 = -2_000_000_000;
+
+/// Integer codes of the labels (order preserving): twice the value when every label is a
+/// half-integer of moderate size (readable), otherwise the rank 1..k.
+fn label_codes(labels: &[f64]) -> Vec<i64> {
+    if labels.iter().all(|v| int_exact(v * 2.0).map(|c| c.abs() < 1_000_000_000).unwrap_or(false)) {
+        labels.iter().map(|v| (v * 2.0) as i64).collect()
+    } else {
+        (1..=labels.len() as i64).collect()
+    }
+}
+
+fn next_up(v: f64) -> f64 {
+    let b = v.to_bits();
+    f64::from_bits(if v >= 0.0 { b + 1 } else { b - 1 })
 }
 
 fn gauss(r: &mut StdRng) -> f64 {
@@ -461,28 +486,65 @@ fn gauss(r: &mut StdRng) -> f64 {
     (s - 3.0) * 1.414
 }
 
-fn gen_logit(r: &mut StdRng, idx: usize, th: bool) -> LogitCase {
-    let k = 2 + (idx % 3);
+/// what a special family fixes; everything else is drawn as usual
+#[derive(Clone, Copy, Default)]
+struct Force {
+    k: Option<usize>,
+    n: Option<usize>,
+    /// number of query rows (all fresh) instead of training rows + 8
+    nq: Option<usize>,
+    /// small feature magnitudes (|X| <= 1000 in sixteenths) so that long training sets stay in budget
+    small: bool,
+}
+
+fn gen_logit(r: &mut StdRng, idx: usize, th: bool, force: Force) -> LogitCase {
+    let k = force.k.unwrap_or(2 + (idx % 3));
     let p = 1 + r.gen_range(0..6);
     let nmax = if th { 100 } else { 60 };
-    let n = r.gen_range((6usize.max(k + 1))..=nmax);
+    let mut n = force.n.unwrap_or_else(|| r.gen_range((6usize.max(k + 1))..=nmax));
+    // ---- labels: ordinary half-integers; adjacent floats; ordinary values rescaled by 2^e
     let pool: [i64; 12] = [-14, -2, 0, 1, 2, 4, 6, 7, 20, 200, 2001, -3];
-    let mut labels2: Vec<i64> = vec![];
-    while labels2.len() < k {
-        let v = pool[r.gen_range(0..pool.len())];
-        if !labels2.contains(&v) {
-            labels2.push(v);
+    let lab_family = match r.gen_range(0..10) {
+        0 | 1 => "adjacent",
+        2 | 3 => "rescaled",
+        _ => "plain",
+    };
+    let mut labels: Vec<f64> = vec![];
+    if lab_family == "adjacent" {
+        let bases = [0.3, 1.0, -2.5, 1.0e10, 7.0e-5, -1.0];
+        let mut v = bases[r.gen_range(0..bases.len())];
+        for _ in 0..k {
+            labels.push(v);
+            v = next_up(v);
         }
+    } else {
+        let e = if lab_family == "rescaled" { [-200, -40, 40, 200][r.gen_range(0..4)] } else { 0 };
+        let mut codes: Vec<i64> = vec![];
+        while codes.len() < k {
+            let v = pool[r.gen_range(0..pool.len())];
+            if !codes.contains(&v) && !(e != 0 && v == 0 && codes.contains(&0)) {
+                codes.push(v);
+            }
+        }
+        labels = codes.iter().map(|c| *c as f64 / 2.0 * (2.0f64).powi(e)).collect();
     }
-    labels2.sort();
-    // per-feature scale 0.1 .. 100 and shift
+    labels.sort_by(|a, b| a.partial_cmp(b).unwrap());
+    // ---- features
     // large-magnitude family: raw, un-centred measurements (scale 16..100, shifted by up to
     // 30 scales, |x| up to 4000), integer valued
-    let large = r.gen_range(0..4) == 0;
+    let large = !force.small && r.gen_range(0..4) == 0;
     let xs = if large { 0 } else { XS };
     let scales = [0.125, 0.5, 1.0, 4.0, 16.0, 100.0];
     let sc: Vec<f64> = (0..p)
-        .map(|_| if large { scales[r.gen_range(4..6)] } else { scales[r.gen_range(0..scales.len())] })
+        .map(|_| {
+            if large {
+                scales[r.gen_range(4..6)]
+            } else if force.small {
+                scales[r.gen_range(0..4)]
+            } else {
+                scales[r.gen_range(0..scales.len())]
+            }
+        })
         .collect();
     let sh: Vec<f64> = (0..p)
         .map(|j| {
@@ -495,17 +557,35 @@ fn gen_logit(r: &mut StdRng, idx: usize, th: bool) -> LogitCase {
             }
         })
         .collect();
-    let (layout, sep) = match r.gen_range(0..5) {
-        0 => ("same", 0.0),
-        1 => ("overlap", 0.7),
-        2 => ("overlap", 1.5),
-        3 => ("apart", 3.0),
-        _ => ("separable", 8.0),
+    // balanced-ordered (two classes): exactly n/2 rows each and the larger label has the larger
+    // mean in every feature -- at the all-zero start the intercept gradient is exactly 0 and
+    // every coefficient gradient is negative
+    let balanced = k == 2 && force.n.is_none() && r.gen_range(0..8) == 0;
+    let (layout, sep) = if balanced {
+        ("balanced-ordered", 1.5)
+    } else {
+        match r.gen_range(0..5) {
+            0 => ("same", 0.0),
+            1 => ("overlap", 0.7),
+            2 => ("overlap", 1.5),
+            3 => ("apart", 3.0),
+            _ => ("separable", 8.0),
+        }
     };
     let means: Vec<Vec<f64>> = (0..k)
-        .map(|_| (0..p).map(|_| sep * (r.gen::<f64>() - 0.5) * 2.0).collect())
+        .map(|c| {
+            (0..p)
+                .map(|_| {
+                    if balanced {
+                        if c == 1 { sep * (0.5 + r.gen::<f64>()) } else { 0.0 }
+                    } else {
+                        sep * (r.gen::<f64>() - 0.5) * 2.0
+                    }
+                })
+                .collect()
+        })
         .collect();
-    let lim = 4000.0;
+    let lim = if force.small { 1000.0 } else { 4000.0 };
     let row = |r: &mut StdRng, c: usize| -> Vec<i64> {
         (0..p)
             .map(|j| {
@@ -515,30 +595,37 @@ fn gen_logit(r: &mut StdRng, idx: usize, th: bool) -> LogitCase {
             })
             .collect()
     };
+    if balanced {
+        n += n % 2;
+    }
     let mut yc: Vec<usize> = (0..n).map(|i| if i < k { i } else { r.gen_range(0..k) }).collect();
-    // unbalanced now and then: one dominant class, or (large family, k >= 3) two frequent
-    // classes and rare others
-    match r.gen_range(0..4) {
-        0 => {
-            for v in yc.iter_mut().skip(k) {
-                if r.gen_bool(0.7) {
-                    *v = 0;
+    if balanced {
+        yc = (0..n).map(|i| i % 2).collect();
+    } else {
+        // unbalanced now and then: one dominant class, or (large family, k >= 3) two frequent
+        // classes and rare others
+        match r.gen_range(0..4) {
+            0 => {
+                for v in yc.iter_mut().skip(k) {
+                    if r.gen_bool(0.7) {
+                        *v = 0;
+                    }
                 }
             }
-        }
-        1 | 2 if large && k >= 3 => {
-            for v in yc.iter_mut().skip(k) {
-                let u: f64 = r.gen();
-                *v = if u < 0.45 {
-                    0
-                } else if u < 0.9 {
-                    1
-                } else {
-                    r.gen_range(2..k)
-                };
+            1 | 2 if large && k >= 3 => {
+                for v in yc.iter_mut().skip(k) {
+                    let u: f64 = r.gen();
+                    *v = if u < 0.45 {
+                        0
+                    } else if u < 0.9 {
+                        1
+                    } else {
+                        r.gen_range(2..k)
+                    };
+                }
             }
+            _ => {}
         }
-        _ => {}
     }
     // random order of the rows
     for i in (1..n).rev() {
@@ -546,48 +633,59 @@ fn gen_logit(r: &mut StdRng, idx: usize, th: bool) -> LogitCase {
         yc.swap(i, j);
     }
     let xi: Vec<Vec<i64>> = yc.iter().map(|&c| row(r, c)).collect();
-    let mut qi = xi.clone();
-    for _ in 0..8 {
+    let mut qi = if force.nq.is_some() { vec![] } else { xi.clone() };
+    for _ in 0..force.nq.unwrap_or(8) {
         let c = r.gen_range(0..k);
         qi.push(row(r, c));
     }
     let alphas: [i64; 8] = [0, 1, 4, 16, 64, 128, 256, 640];
     let alpha_num = alphas[r.gen_range(0..alphas.len())];
     let style = r.gen_range(0..STYLES.len());
+    let backend = match r.gen_range(0..10) {
+        0 | 1 => 1,
+        2 | 3 => 2,
+        _ => 0,
+    };
+    // the exactly balanced two-class sets are the ones on which a back end's norm / sum
+    // quirks show at the very first convergence test: send half of them to ndarray
+    let backend = if balanced && r.gen_bool(0.5) { 1 } else { backend };
+    let via_trait = r.gen_bool(0.3);
+    let mut name = String::new();
+    if large {
+        name.push_str("large-");
+    }
+    name.push_str(layout);
+    if lab_family != "plain" {
+        name.push_str("+labels-");
+        name.push_str(lab_family);
+    }
     LogitCase {
         n,
         p,
         k,
-        labels2,
+        labels,
         yc,
         xi,
         qi,
         alpha_num,
-        layout: if large {
-            match layout {
-                "same" => "large-same",
-                "overlap" => "large-overlap",
-                "apart" => "large-apart",
-                _ => "large-separable",
-            }
-        } else {
-            layout
-        },
+        layout: name,
         xs,
         style,
+        backend,
+        via_trait,
     }
 }
 
-fn to_matrix(rows: &[Vec<i64>], xs: i32) -> DenseMatrix<f64> {
+fn to_matrix<M: Matrix<f64>>(rows: &[Vec<i64>], xs: i32) -> M {
     let n = rows.len();
     let p = rows[0].len();
-    let mut v = Vec::with_capacity(n * p);
-    for r in rows {
-        for x in r {
-            v.push(*x as f64 / (1 << xs) as f64);
+    let mut m = M::zeros(n, p);
+    for (i, r) in rows.iter().enumerate() {
+        for (j, x) in r.iter().enumerate() {
+            m.set(i, j, *x as f64 / (1 << xs) as f64);
         }
     }
-    DenseMatrix::from_array(n, p, &v)
+    m
 }
 
 /// largest s in 0..=30 with max|v| * 2^s < 2^15; None when max|v| >= 2^15 or not finite
@@ -613,9 +711,18 @@ struct LogitOut {
 }
 
 fn run_logit(c: &LogitCase) -> Result<LogitOut, String> {
-    let x = to_matrix(&c.xi, c.xs);
-    let q = to_matrix(&c.qi, c.xs);
-    let y: Vec<f64> = c.yc.iter().map(|&i| c.labels2[i] as f64 / 2.0).collect();
+    match c.backend {
+        1 => run_logit_m::<ndarray::Array2<f64>>(c),
+        2 => run_logit_m::<nalgebra::DMatrix<f64>>(c),
+        _ => run_logit_m::<DenseMatrix<f64>>(c),
+    }
+}
+
+fn run_logit_m<M: Matrix<f64>>(c: &LogitCase) -> Result<LogitOut, String> {
+    let x: M = to_matrix(&c.xi, c.xs);
+    let q: M = to_matrix(&c.qi, c.xs);
+    let yv: Vec<f64> = c.yc.iter().map(|&i| c.labels[i]).collect();
+    let y: M::RowVector = BaseVector::from_array(&yv);
     let alpha = c.alpha_num as f64 / (1 << AS) as f64;
     let params = match c.style {
         0 => LogisticRegressionParameters::default().with_alpha(alpha),
@@ -630,7 +737,12 @@ fn run_logit(c: &LogitCase) -> Result<LogitOut, String> {
             alpha,
         },
     };
-    let lr = LogisticRegression::fit(&x, &y, params).map_err(|e| format!("err:{}", e))?;
+    let lr: LogisticRegression<f64, M> = if c.via_trait {
+        SupervisedEstimator::fit(&x, &y, params)
+    } else {
+        LogisticRegression::fit(&x, &y, params)
+    }
+    .map_err(|e| format!("err:{}", e))?;
     let cm = lr.coefficients();
     let im = lr.intercept();
     let (cr, cc) = cm.shape();
@@ -642,14 +754,27 @@ fn run_logit(c: &LogitCase) -> Result<LogitOut, String> {
             icept.push(im.get(i, j));
         }
     }
-    let pred = lr.predict(&q).map_err(|e| format!("err:{}", e))?;
-    Ok(LogitOut { coef, icept, pred })
+    let pred = if c.via_trait {
+        Predictor::predict(&lr, &q)
+    } else {
+        lr.predict(&q)
+    }
+    .map_err(|e| format!("err:{}", e))?;
+    Ok(LogitOut {
+        coef,
+        icept,
+        pred: pred.to_vec(),
+    })
 }
 
 fn logit_event(run: i64, c: &LogitCase, o: Option<Result<Result<LogitOut, String>, String>>) -> Value {
+    let codes = label_codes(&c.labels);
     let mut e = json!({"run": run, "ev": "LogitFit", "n": c.n, "p": c.p, "k": c.k, "layout": c.layout,
-        "labels2": c.labels2, "yc": c.yc.iter().map(|v| v + 1).collect::<Vec<usize>>(),
-        "xS": c.xs, "X": c.xi, "Q": c.qi, "alphaNum": c.alpha_num, "alphaS": AS, "build": STYLES[c.style]});
+        "labels2": codes, "labelBits": c.labels.iter().map(|v| bits64(*v)).collect::<Vec<Value>>(),
+        "labelStr": c.labels.iter().map(|v| format!("{:e}", v)).collect::<Vec<String>>(),
+        "yc": c.yc.iter().map(|v| v + 1).collect::<Vec<usize>>(),
+        "xS": c.xs, "X": c.xi, "Q": c.qi, "alphaNum": c.alpha_num, "alphaS": AS, "build": STYLES[c.style],
+        "backend": BACKENDS[c.backend], "entry": if c.via_trait { "trait" } else { "inherent" }});
     let status;
     let (mut w_ok, mut ws, mut bs): (bool, Vec<u32>, u32) = (false, vec![0; c.p], 0u32);
     let (mut w_fin, mut rows, mut cols_n, mut icn) = (false, 0usize, 0usize, 0usize);
@@ -678,7 +803,7 @@ fn logit_event(run: i64, c: &LogitCase, o: Option<Result<Result<LogitOut, String
             // features differ by orders of magnitude) and one for the intercepts
             let p = c.p;
             let cols: Vec<Option<u32>> = (0..p)
-                .map(|j| scale_for(&out.coef.iter().map(|r| r.get(j).cloned().unwrap_or(f64::NAN)).collect::<Vec<f64>>()))
+                .map(|j| scale_for(&out.coef.iter().map(|r| r.as_slice().get(j).cloned().unwrap_or(f64::NAN)).collect::<Vec<f64>>()))
                 .collect();
             let shape_ok = out.coef.iter().all(|r| r.len() == p);
             if let (true, true, Some(s2)) = (shape_ok, cols.iter().all(|s| s.is_some()), scale_for(&out.icept)) {
@@ -692,10 +817,14 @@ fn logit_event(run: i64, c: &LogitCase, o: Option<Result<Result<LogitOut, String
                     .collect();
                 icept = Q::new(s2).v(&out.icept);
             }
-            pred_ok = out.pred.iter().all(|v| int_exact(v * 2.0).is_some());
-            if pred_ok {
-                pred2 = out.pred.iter().map(|v| int_exact(v * 2.0).unwrap()).collect();
-            }
+            // exact projection of the predictions: the code of the training label a prediction
+            // equals, NOLABEL when it equals none
+            pred_ok = out.pred.iter().all(|v| v.is_finite());
+            pred2 = out
+                .pred
+                .iter()
+                .map(|v| c.labels.iter().position(|l| l == v).map(|i| codes[i]).unwrap_or(NOLABEL))
+                .collect();
         }
     }
     e["status"] = json!(status);
@@ -740,16 +869,23 @@ fn fixed_case(p: usize, labels2: &[i64], yc: &[usize], flat: &[i64], alpha_num: 
         n,
         p,
         k: labels2.len(),
-        labels2: labels2.to_vec(),
+        labels: labels2.iter().map(|v| *v as f64 / 2.0).collect(),
         yc: yc.to_vec(),
         qi: xi.clone(),
         xi,
         alpha_num,
-        layout,
+        layout: layout.to_string(),
         xs: XS,
         style: 0,
+        backend: 0,
+        via_trait: false,
     }
 }
+
+/// batch sizes of one predict call / lengths of one training set that straddle the block
+/// sizes an implementation may use internally
+const BATCH_LADDER: [usize; 6] = [255, 256, 257, 300, 513, 700];
+const TRAIN_LADDER: [usize; 10] = [63, 64, 65, 127, 128, 129, 255, 256, 257, 513];
 
 fn gen_logit_file(path: &str, only: Option<usize>) {
     let mut out = Out::create(path);
@@ -763,9 +899,42 @@ fn gen_logit_file(path: &str, only: Option<usize>) {
             let o = watchdog(60, move || run_logit(&c2));
             out.emit(logit_event(900001 + i as i64, &c, o));
         }
+        // size ladders (their own random stream, so the main sequence does not depend on them)
+        let mut rl = rng(91);
+        let mut run = 910000;
+        // one predict call on a long batch, for two and for more classes
+        for (i, &nq) in BATCH_LADDER.iter().enumerate() {
+            for &k in &[2usize, 3 + (i % 2)] {
+                let mut c = gen_logit(&mut rl, i, th, Force { k: Some(k), n: None, nq: Some(nq), small: false });
+                if c.alpha_num == 0 {
+                    c.alpha_num = 64; // keep the ladder cases inside the judged (penalised) domain
+                }
+                run += 1;
+                let c2 = c.clone();
+                let o = watchdog(60, move || run_logit(&c2));
+                out.emit(logit_event(run, &c, o));
+            }
+        }
+        // long training sets (small feature magnitudes keep the 32-bit sums of the spec in range)
+        // quick: one length around each of 64, 128, 256 and the 513; thorough: all of them
+        let picks: Vec<usize> = if th {
+            (0..TRAIN_LADDER.len()).collect()
+        } else {
+            vec![rl.gen_range(0..3), 3 + rl.gen_range(0..3), 6 + rl.gen_range(0..3), 9]
+        };
+        for (i, &t) in picks.iter().enumerate() {
+            let mut c = gen_logit(&mut rl, i, th, Force { k: None, n: Some(TRAIN_LADDER[t]), nq: Some(8), small: true });
+            if c.alpha_num == 0 {
+                c.alpha_num = 64;
+            }
+            run += 1;
+            let c2 = c.clone();
+            let o = watchdog(120, move || run_logit(&c2));
+            out.emit(logit_event(run, &c, o));
+        }
     }
     for idx in 0..n {
-        let c = gen_logit(&mut r, idx, th);
+        let c = gen_logit(&mut r, idx, th, Force::default());
         if only.map(|o| o != idx).unwrap_or(false) {
             continue;
         }
@@ -798,30 +967,30 @@ fn refit_file(inp: &str, path: &str) {
                 .collect()
         };
         let ints = |a: &Value| -> Vec<i64> { a.as_array().unwrap().iter().map(|x| x.as_i64().unwrap()).collect() };
-        let layout: &'static str = match v["layout"].as_str().unwrap_or("") {
-            "same" => "same",
-            "overlap" => "overlap",
-            "apart" => "apart",
-            "separable" => "separable",
-            "large-same" => "large-same",
-            "large-overlap" => "large-overlap",
-            "large-apart" => "large-apart",
-            "large-separable" => "large-separable",
-            _ => "given",
-        };
         let style = STYLES.iter().position(|s| Some(*s) == v["build"].as_str()).unwrap_or(0);
+        let backend = BACKENDS.iter().position(|s| Some(*s) == v["backend"].as_str()).unwrap_or(0);
+        // the labels bit for bit; older artefacts carry only the doubled values
+        let labels: Vec<f64> = match v["labelBits"].as_array() {
+            Some(a) => a
+                .iter()
+                .map(|hl| f64::from_bits(((hl[0].as_u64().unwrap()) << 32) | hl[1].as_u64().unwrap()))
+                .collect(),
+            None => ints(&v["labels2"]).iter().map(|c| *c as f64 / 2.0).collect(),
+        };
         let c = LogitCase {
             n: v["n"].as_u64().unwrap() as usize,
             p: v["p"].as_u64().unwrap() as usize,
             k: v["k"].as_u64().unwrap() as usize,
-            labels2: ints(&v["labels2"]),
+            labels,
             yc: ints(&v["yc"]).iter().map(|x| *x as usize - 1).collect(),
             xi: mat(&v["X"]),
             qi: mat(&v["Q"]),
             alpha_num: v["alphaNum"].as_i64().unwrap(),
-            layout,
+            layout: v["layout"].as_str().unwrap_or("given").to_string(),
             xs: v["xS"].as_i64().unwrap_or(XS as i64) as i32,
             style,
+            backend,
+            via_trait: v["entry"].as_str() == Some("trait"),
         };
         let c2 = c.clone();
         let o = watchdog(60, move || run_logit(&c2));
